@@ -1222,6 +1222,8 @@ def ref(x):
             return ("none",)
         if x == "?":
             return ("any",)
+        if x in ("true", "false"):
+            return ("bool", x == "true")
         if len(x) >= 2 and x[0] == "'" and x[-1] == "'":
             return ("str", x[1:-1])
         return RefParser(x).parse()
